@@ -193,6 +193,24 @@ func ruleProofFraming(w *World, r *Run, rule string) {
 	if nRefusing == 0 {
 		r.Undecided(rule, rn, "", "no refusing path of the reader found")
 	}
+	// "no data" and "empty data" are the same text: the empty list is written as zero bytes, and zero bytes reach the reader
+	// as a nil slice as easily as an empty one (bytes.Buffer.Bytes after writing "", append(nil, ""...), a JSON null)
+	nilKey := "Proof.Unmarshal | a nil input is the empty list"
+	nilBad := false
+	for _, s := range rsums {
+		if s.Panic || len(s.Rets) != 1 || s.Rets[0].Kind == "nil" {
+			continue
+		}
+		for _, f := range s.Facts {
+			if f.Pos && f.T.Kind == "binop" && f.T.Name == "==" && len(f.T.Args) == 2 && ((f.T.Args[0] == data && f.T.Args[1].Kind == "nil") || (f.T.Args[1] == data && f.T.Args[0].Kind == "nil")) {
+				nilBad = true
+				r.Fail(rule, nilKey, w.pos(s.RetPos), "Unmarshal refuses a nil input: Marshal writes the empty list as zero bytes, which arrive as nil whenever they travelled through a buffer or a field that was never assigned — the empty list does not read back")
+			}
+		}
+	}
+	if !nilBad {
+		r.Pass(rule, nilKey, "", "")
+	}
 	// the reader must not strip a *set* of characters that contains the writer's terminator from its input: an empty hash
 	// is written as a bare terminator, so TrimRight/Trim/TrimSpace/Fields swallow trailing (or all) empty elements and the
 	// list reads back shorter than it was written. Cutting exactly one terminator (TrimSuffix, the slice of Split) is fine.
